@@ -609,11 +609,11 @@ func (h *H) apply1(line string) (string, bool) {
 		h.mon.raw(h, a, r)
 		return fmt.Sprintf("%d code=%s", r.Status, r.Code), true
 	case "GC":
+		h.mon.beforeGC(h, a[0])
 		err := h.srv.VerifGC(a[0])
 		h.mon.gc(h, a[0])
-		if err != nil {
-			return "gc-error", true
-		}
+		h.mon.afterGC(h, a[0])
+		_ = err // a repository without a directory cannot be collected by the directory store; not an observable answer
 		return "gc-ok", true
 	case "SETTIME":
 		// SETTIME <repo> <digest> old|recent
@@ -625,6 +625,10 @@ func (h *H) apply1(line string) (string, bool) {
 		if err != nil {
 			return "settime-error", true
 		}
+		if h.mon.aged == nil {
+			h.mon.aged = map[string]bool{}
+		}
+		h.mon.aged[a[0]+"|"+h.tk.realDigest(a[1])] = len(a) > 2 && a[2] == "old"
 		return "settime-ok", true
 	case "PRUNE":
 		// PRUNE <repo> age|count : upload-session pruning as the timer / eviction goroutine would do it
